@@ -459,6 +459,9 @@ pub enum Variant {
 	HostCase,
 	SwapSegments(u16),
 	AppendSegment,
+	/// join segments k and k+1 with a character that sorts below '/' (near miss
+	/// that distinguishes byte order from segment order)
+	MergeSegments(u16, u8),
 }
 
 pub fn variant() -> BoxedStrategy<Variant> {
@@ -479,6 +482,7 @@ pub fn variant() -> BoxedStrategy<Variant> {
 		1 => Just(Variant::HostCase),
 		1 => any::<u16>().prop_map(Variant::SwapSegments),
 		1 => Just(Variant::AppendSegment),
+		2 => (any::<u16>(), any::<u8>()).prop_map(|(k, c)| Variant::MergeSegments(k, c)),
 	]
 	.boxed()
 }
@@ -730,6 +734,16 @@ pub fn apply_variant(p: &Parts, v: &Variant) -> Parts {
 		Variant::AppendSegment => {
 			sg.push("z".into());
 			set_path(&mut q, abs, sg);
+		}
+		Variant::MergeSegments(k, c) => {
+			if sg.len() >= 2 {
+				let i = idx(*k, sg.len() - 2);
+				let joiner = ["-", "+", ",", "!", "$", "&", "'", "(", ")", "*", ".", "~", "0", "A"][*c as usize % 14];
+				let merged = format!("{}{}{}", sg[i], joiner, sg[i + 1]);
+				sg[i] = merged;
+				sg.remove(i + 1);
+				set_path(&mut q, abs, sg);
+			}
 		}
 	}
 	q
